@@ -118,6 +118,7 @@ fn main() {
                 match kind.as_str() {
                     "map-drop" => mapdrv::run_map::<Kd, Vd>(&body, &mut out),
                     "map-plain" => mapdrv::run_map::<Kp, Vp>(&body, &mut out),
+                    "map-nc" => mapdrv::run_map::<Kn, Vn>(&body, &mut out),
                     "set-drop" => setdrv::run_set::<Kd>(&body, &mut out),
                     "set-plain" => setdrv::run_set::<Kp>(&body, &mut out),
                     "table-drop" => tabledrv::run_table::<tabledrv::Td>(&body, &mut out),
@@ -126,6 +127,9 @@ fn main() {
                     "table-a64" => tabledrv::run_table::<tabledrv::Ta64>(&body, &mut out),
                     "table-1" => tabledrv::run_table::<tabledrv::T1>(&body, &mut out),
                     "table-2" => tabledrv::run_table::<tabledrv::T2>(&body, &mut out),
+                    "table-3" => tabledrv::run_table::<tabledrv::T3>(&body, &mut out),
+                    "table-6" => tabledrv::run_table::<tabledrv::T6>(&body, &mut out),
+                    "table-12" => tabledrv::run_table::<tabledrv::T12>(&body, &mut out),
                     "table-zst" => tabledrv::run_table::<tabledrv::Tz>(&body, &mut out),
                     "table-zst64" => tabledrv::run_table::<tabledrv::Tz64>(&body, &mut out),
                     k => panic!("unknown kind {}", k),
